@@ -112,6 +112,12 @@ claim("C16", "paired-run differential property testing (rapid): two worlds from 
       "that the attempt does not lock. Oracle: status, every header, body, session and cookies after the response are byte-equal.",
       TRUST + " Timing side channels are outside the statement.", engine="paired-differential")
 
+claim("C17", "invariant checking over rapid-generated all-flow histories: substring scans of storage, logs and mail recipients for every secret the harness knows",
+      WM + "every secret the harness typed or was shown is registered (passwords incl. rejected ones, one-time passwords, recovery codes, remember cookie values, mailed confirm/recover/2FA-verify tokens and mangled submissions of them). "
+      "After every step: no registered secret is a substring of any string field of any changed user record or of the remember table; no new log line contains one; every mail carrying a token is addressed only to the e-mail (and declared secondaries) "
+      "of the account whose stored selector that token hashes to.",
+      TRUST)
+
 NOT_YET = "check not built yet in this round (claimed in DESIGN.md; will be claimed once its check is committed)"
 
 def main():
